@@ -34,7 +34,8 @@ CLAIM = dict(
           "composition only through 'allocated cores are cores 0..17 of the sink's chip' (explicit hypothesis)."),
     technique="Lean 4 theorems over a hand-written model + differential correspondence + Lean spec as oracle")
 
-THEOREMS = ["deliveredB_iff", "deliver_of_tree", "deliver_congr", "deliver_minimised"]
+THEOREMS = ["deliveredB_iff", "delivered_no_flag", "deliver_of_tree", "deliver_of_tree_root", "deliver_congr",
+            "covered_of_tree", "deliver_minimised", "pipeline_delivery", "ex_hyps"]
 
 RULE = ("pipelines on machines 1x1..8x8 (quick) / ..24x24 (thorough), torus / mesh / partly wrapped, dead chips, links dead "
         "in one or both directions, per-chip core-count exceptions, busy cores (monitor + random) as SystemInfo core "
